@@ -65,7 +65,8 @@ CHECKS = {
     "or elements requested (str::repeat length x count, Vec::with_capacity, or the converted number bounding a fill loop) stay <= 2^31 or "
     "the native returns an error first, and no arithmetic-overflow panic of the size computation is feasible (ToNumber of the argument "
     "executed for real); counterexamples are replayed in a child process (release and dev build) under a 3 GiB address-space limit "
-    "(abort/panic/timeout versus catchable error). `new Array(n)` is a known finding. Bounded work per step, native re-entry depth, stack overflow and the "
+    "(abort/panic/timeout versus catchable error). JsObject::set_property on an array is executed for every u32 index: the length it asks "
+    "Vec::resize for must stay <= 2^31 - it does not (`a[4294967294] = 1` aborts the process): a known finding. Bounded work per step, native re-entry depth, stack overflow and the "
     "other natives are outside the claim.")),
  'C07': dict(design='section 3, C07', text=(
     "Kernel claim: the save/restore round trip. BytecodeVM::save_state followed by BytecodeVM::from_saved_state is executed symbolically "
